@@ -15,6 +15,7 @@ PropsOK == AtMostOnce' /\ SuccessOnlyAfterBootstrap' /\ FailsIfEndedOrTimedOutFi
            /\ UserDirKept' /\ TempDirKeptWhileRunning' /\ (launch # "p" => launch' = launch)
 Step(e) ==
   CASE e.a = "Stdout"   -> Stdout(e.marker)
+    [] e.a = "Stderr"   -> Stderr
     [] e.a = "Connect"  -> Connect(e.how)
     [] e.a = "CtlReply" -> CtlReply(e.ok)
     [] e.a = "Progress" -> Progress(e.p)
